@@ -36,40 +36,7 @@ def check(ctx) -> Result:
     res.floor("G stores in quick sampler", ng, 1)
     # renormalisation divides by the sum of exactly the kept weights
     cp = qs.methods["_calculate_probabiltiies"]
-    from ..inline import inlined
-    cpf = inlined(cp.node)
-    divs = [d for d in ast.walk(cpf) if isinstance(d, ast.BinOp) and isinstance(d.op, ast.Div)]
-    par = {c: n_ for n_ in ast.walk(cpf) for c in ast.iter_child_nodes(n_)}
-    verdict, why = None, ""
-    for d in divs:
-        r = d.right
-        if isinstance(r, ast.Name):
-            ds = [a.value for a in ast.walk(cpf) if isinstance(a, ast.Assign) and len(a.targets) == 1 and src(a.targets[0]) == r.id]
-            if len(ds) == 1:
-                r = ds[0]
-        if not (isinstance(r, ast.Call) and src(r.func) == "sum" and len(r.args) == 1 and isinstance(r.args[0], ast.Call) and isinstance(r.args[0].func, ast.Attribute) and r.args[0].func.attr == "values"):
-            continue
-        dname = src(r.args[0].func.value)
-        # the numerator is a value of the same dictionary: enclosing loop / comprehension iterates <dname>.items()
-        x, iters = d, []
-        while x is not None and x is not cpf:
-            x = par.get(x)
-            if isinstance(x, ast.For):
-                iters.append((x.target, x.iter))
-            elif isinstance(x, (ast.DictComp, ast.ListComp, ast.GeneratorExp)):
-                iters += [(g.target, g.iter) for g in x.generators]
-        same = [tg for tg, it in iters if src(it) == f"{dname}.items()" and isinstance(tg, ast.Tuple) and len(tg.elts) == 2 and src(tg.elts[1]) == src(d.left)]
-        other = [it for tg, it in iters if src(it).endswith(".items()") and src(it) != f"{dname}.items()"]
-        if same:
-            verdict = True
-        elif other and verdict is None:
-            verdict, why = False, f"weights of `{src(other[0])}` are divided by the sum of `{dname}`"
-    if verdict is None and not divs and not any(isinstance(c, ast.Call) and isinstance(c.func, ast.Attribute) and src(c.func.value) == "self" and c.func.attr in qs.methods for c in ast.walk(cpf)):
-        verdict, why = False, "no division by the total of the kept weights"
-    if verdict is None:
-        res.frozen(False, "G-renormalise-kept", "QuickSampler._calculate_probabiltiies", cp.site(), cp.qualname, "", "renormalisation idiom (p / sum(kept.values()) over kept.items()) not recognised", construct="renormalise")
-    else:
-        res.add(verdict, "G-renormalise-kept", "QuickSampler._calculate_probabiltiies", cp.site(), cp.qualname, "kept weights are divided by their own sum", f"quick sampler no longer renormalises over exactly the kept states: {why}", construct="renormalise")
+    rg_mass.renormalise_kept(ctx, res, cp, "G-renormalise-kept", "QuickSampler._calculate_probabiltiies", "kept weights are divided by their own sum", "quick sampler no longer renormalises over exactly the kept states")
     funcs = []
     for rel, cn in ((SIM, "Simulator"), (SAM, "Sampler"), (QS, "QuickSampler"), (AN, "Analyzer")):
         ci = ctx.ix.module(rel).classes.get(cn)
